@@ -25,6 +25,7 @@ import h2.connection
 import h2.errors
 import h2.events
 import h2.exceptions
+import h2.settings
 import priority
 
 from twisted.internet._producer_helpers import _PullToPush
@@ -181,6 +182,8 @@ class H2Connection(Protocol, TimeoutMixin):
                 self._requestAborted(event)
             elif isinstance(event, h2.events.WindowUpdated):
                 self._handleWindowUpdate(event)
+            elif isinstance(event, h2.events.RemoteSettingsChanged):
+                self._handleRemoteSettingsChanged(event)
             elif isinstance(event, h2.events.PriorityUpdated):
                 self._handlePriorityUpdate(event)
             elif isinstance(event, h2.events.ConnectionTerminated):
@@ -678,15 +681,48 @@ class H2Connection(Protocol, TimeoutMixin):
             # _sendPrioritisedData loop some time later.
             if self._outboundStreamQueues.get(streamID):
                 self.priority.unblock(streamID)
+                self._wakeSendingLoop()
             self.streams[streamID].windowUpdated()
         else:
-            # Update strictly applies to all streams.
-            for stream in self.streams.values():
-                stream.windowUpdated()
+            self._allStreamWindowsUpdated()
 
-                # If we still have data to send for this stream, unblock it.
-                if self._outboundStreamQueues.get(stream.streamID):
-                    self.priority.unblock(stream.streamID)
+    def _allStreamWindowsUpdated(self):
+        """
+        The flow control window of every stream may have been opened: either
+        the connection window was updated, or the peer changed
+        SETTINGS_INITIAL_WINDOW_SIZE.
+        """
+        # Iterate over a copy: resuming a producer can complete a stream.
+        for stream in list(self.streams.values()):
+            stream.windowUpdated()
+
+            # If we still have data to send for this stream, unblock it.
+            if self._outboundStreamQueues.get(stream.streamID):
+                self.priority.unblock(stream.streamID)
+                self._wakeSendingLoop()
+
+    def _handleRemoteSettingsChanged(self, event):
+        """
+        Manage changes of the peer's settings. A change of
+        SETTINGS_INITIAL_WINDOW_SIZE adjusts the flow control window of every
+        stream, so streams blocked on flow control may be able to continue.
+
+        @param event: The Hyper-h2 event that encodes information about the
+            changed settings.
+        @type event: L{h2.events.RemoteSettingsChanged}
+        """
+        if h2.settings.SettingCodes.INITIAL_WINDOW_SIZE in event.changed_settings:
+            self._allStreamWindowsUpdated()
+
+    def _wakeSendingLoop(self):
+        """
+        If the data sending loop is waiting for a stream to become unblocked,
+        start it again.
+        """
+        if self._sendingDeferred is not None:
+            d = self._sendingDeferred
+            self._sendingDeferred = None
+            d.callback(None)
 
     def getPeer(self):
         """
